@@ -39,7 +39,7 @@ ASSUMPTIONS = [
     '"only-when-server-context-is-falsy:" when the truthy run does not show the same mechanism); the verdict is the first run\'s',
 ]
 SHARDS = {'quick': 4, 'thorough': 16}
-TIMEOUT = {'quick': 400, 'thorough': 2400}
+TIMEOUT = {'quick': 900, 'thorough': 3600}
 ANCHORS = [
     ('pjrpc/server/dispatcher.py', 'Method.bind'),
     ('pjrpc/server/dispatcher.py', 'ViewMethod.bind'),
